@@ -1,5 +1,6 @@
-From Coq Require Import NArith List.
-From FF Require Import Lib.Word Gen.Consts_device_acpi_aml Aml.Stream Aml.Lex Aml.Grammar.
+(** Non-vacuity for C11. *)
+From Coq Require Import NArith List Lia.
+From FF Require Import Lib.Word Gen.Consts_device_acpi_aml Aml.Stream Aml.Lex Aml.LexProofs Aml.Grammar Aml.LexRoundtrip.
 Import ListNotations.
 Local Open Scope N_scope.
 
@@ -13,3 +14,30 @@ Example C11_opcodes_match :
    aml_pOpMutex; aml_pOpEvent; aml_pOpOpRegion; aml_pOpField; aml_pOpDevice; aml_pOpProcessor; aml_pOpPowerRes; aml_pOpThermalZone; aml_pOpIndexField; aml_pOpBankField;
    aml_pOpIntScopeBlock; aml_pOpIntByteList; aml_pOpIntConnection; aml_pOpIntNamedField].
 Proof. reflexivity. Qed.
+
+(** a reader in front of a token *)
+Definition ex_tok : list N := enc_pkglen 3 0x12345.
+Definition ex_r : reader := setOffset (init_reader ([0x10] ++ ex_tok ++ [0x5c; 0x00]) 0) 1.
+
+Example C11_at_token_nonvacuous : at_token ex_r [0x10] ex_tok [0x5c; 0x00] /\ pkglen_admissible 3 0x12345.
+Proof.
+  split.
+  - constructor; try reflexivity.
+    + vm_compute. discriminate.
+    + unfold reader_wf. vm_compute. repeat split; try discriminate. repeat constructor.
+  - right; right; left. split; [reflexivity|]. vm_compute. reflexivity.
+Qed.
+
+Example C11_pkglen_example : parsePkgLength ex_r = Ok (0x12345, true, set_offset_raw ex_r 4).
+Proof. vm_compute. reflexivity. Qed.
+
+Example C11_wf_name_nonvacuous :
+  wf_name (mkName true 2 false [seg4 0x5f 0x53 0x42 0x5f; seg4 0x50 0x43 0x49 0x30; seg4 0x49 0x53 0x41 0x5f]) /\
+  wf_name (mkName false 0 false [seg4 0x5f 0x41 0x44 0x52]) /\ valid_opcode aml_pOpDevice /\ valid_opcode aml_pOpAdd.
+Proof.
+  split; [|split; [|split]].
+  - split; [vm_compute; reflexivity|exact I].
+  - split; [vm_compute; reflexivity|]. right. right. reflexivity.
+  - split; [vm_compute; discriminate|]. eexists. split; [reflexivity|discriminate].
+  - split; [vm_compute; discriminate|]. eexists. split; [reflexivity|discriminate].
+Qed.
